@@ -52,7 +52,7 @@ CLAIMED = {
           "C05_frame_any_source (whatever source and backend do, what was taken is a prefix of n - left octets), C05_segmentation_independent "
           "(same stream, any segmentation and buffer content => same position afterwards). Implementation: bait/marker and delivery-record monitors "
           "on all chunkings of short messages (binary, look-alikes, zero-size chunks), every refusal with payload on the wire, backends that give up "
-          "early, LF-free runs around the line limit, under 3-5 segmentations; correspondence with the server model.",
+          "early, LF-free runs around the line limit, chunkings behind a successful STARTTLS (after no / a refused / an abandoned / a completed plaintext transfer, with injected plaintext), under 3-5 segmentations; correspondence with the server model.",
           "DESIGN.md 0.3 + 7 C05", "Lean 4 proof (octet-count framing on the wire model) + monitors + differential correspondence (conv probe)",
           "that the octets handed to the backend are the payloads' concatenation with EOF only after LAST, and one reply per BDAT, are decided by the monitors and the correspondence (and one reply per command by C03's theorem on the model); one known finding (line limiter below bufio)"),
  "C06": C("C06_bound_data (never more than N octets for ANY input), C06_oversize_never_complete, C06_transparent proved for every stream and "
@@ -85,12 +85,12 @@ CLAIMED = {
  "C11": C("Proved on the parser model: C11_exact_mailbox (for every `<local@domain>` with a non-empty dot-string local part and a non-empty "
           "domain not ending in '@' - the class every real client sends - the parser returns exactly that mailbox and leaves exactly what follows "
           "'>' for the parameter parser), C11_special_refused (a special character in an unquoted local part refuses the path, whatever "
-          "follows), C11_quoted_exact (every local part written as a quoted-string with backslash and quote escaped is returned unescaped), C11_null_sender; with C12_disabled_504 for parameters of disabled extensions. Implementation: every short string over 16 "
+          "follows), C11_quoted_exact (every local part written as a quoted-string with backslash and quote escaped is returned unescaped), C11_null_sender; on the server model's handlers (Props/C11Server.lean): C11_mail_exact_or_refused / C11_rcpt_exact_or_refused (for EVERY connection state and EVERY argument octet string the handler either calls the backend with exactly the decoded mailbox and options - keyword, TrimSpace, path parser, parseArgs, parameter switch composed in source order - or writes one 5xx reply (452 for the recipient limit) and calls nothing), C11_mail_refused_before_backend (an argument that does not decode is answered 5xx with a class-5 enhanced code and no callback, whatever the state); with C12_disabled_504 for parameters of disabled extensions. Implementation: every short string over 16 "
           "syntactically significant symbols and mutations of valid paths, classified by an independent RFC 5321 reference grammar "
           "(valid => exact mailbox, invalid(class) => refused); parser entry points and parameter handling (good, bad, disabled, duplicated, "
           "lower-case, long-s spelled values) compared with the model.",
           "DESIGN.md 0.3 + 7 C11", "Lean 4 proof (path parser on the dot-string class) + reference grammar as executable judge + differential correspondence (parse, conv probes)",
-          "quoted local parts, source routes, address literals and the decoded parameter values are decided by the reference-grammar judge and the correspondence; four lenient-parser classes are known findings"),
+          "source routes, address literals and non-ASCII parameter values are decided by the reference-grammar judge and the correspondence; four lenient-parser classes are known findings"),
  "C12": C("C12_caps_exact proved for all configurations and TLS states (all limits and mechanism lists), C12_ehlo_reply, C12_helo_none, "
           "C12_disabled_504 proved; advertised <=> honoured: caps_keywords (the keywords of the list, in order), C12_starttls_honoured (listed exactly when the command is accepted, else 502), "
           "C12_auth_honoured (listed exactly when authentication is possible; 523 where it is not allowed), C12_keyword_iff_enabled (SMTPUTF8, REQUIRETLS, BINARYMIME, DSN, RRVS, LIMITS); the complete 4608-point configuration space (backend: plain Session, AuthSession with mechanisms, AuthSession without) enumerated on the real server (TLS-active points over a real "
@@ -105,7 +105,7 @@ CLAIMED = {
           "status scripts, panics, DATA and BDAT, both backend kinds; compared with the model.",
           "DESIGN.md 0.3 + 7 C13", "Lean 4 proof (channel mechanism = attribution spec = model bookkeeping) + judge + differential correspondence (conv probe)",
           "the channel model is a model of Go channels (FIFO, non-blocking send with default); goroutine timing of the delivery is decided by the sched probe; out-of-contract status calls on the DATA path are schedule dependent and not generated"),
- "C14": C("Proved: C14_xtext_roundtrip (decodeXtext (encodeXtext s) = s for every string over 7-bit ASCII) and C14_monitor_model; the parameter trip on the models (Proofs/ParamTrip.lean): C14_tokenise (strings.Fields on the client's parameter string), C14_params_parse (parseArgs gives back exactly the rendered parameter list), C14_mail_options_trip (every combination of BODY, SIZE, REQUIRETLS, SMTPUTF8, RET, printable-ASCII ENVID, AUTH <> / dot-string mailbox written by the client model is decoded by the server model's switch into exactly the same options), C14_rcpt_options_trip (NOTIFY sets, rfc822 ORCPT). All five codec functions compared with the Lean model on every Unicode scalar value (thorough) and short strings over the significant alphabet; round-trip laws judged on the implementation's own encode/decode pairs; e2e probe: the real client talks to the real server and the options the backend observed are compared field by field with those given (every string option from the alphabet, option subsets, RRVS instants in several zones).",
+ "C14": C("Proved: C14_xtext_roundtrip (decodeXtext (encodeXtext s) = s for every string over 7-bit ASCII) and C14_monitor_model; the parameter trip on the models (Proofs/ParamTrip.lean): C14_tokenise (strings.Fields on the client's parameter string), C14_params_parse (parseArgs gives back exactly the rendered parameter list), C14_mail_options_trip (every combination of BODY, SIZE, REQUIRETLS, SMTPUTF8, RET, printable-ASCII ENVID, AUTH <> / dot-string mailbox written by the client model is decoded by the server model's switch into exactly the same options), C14_rcpt_options_trip (NOTIFY sets, rfc822 ORCPT); the WHOLE LINE (Proofs/LineTrip.lean, Props/C14Line.lean): C14_mail_line_trip / C14_rcpt_line_trip - for every 7-bit dot-string mailbox and every option value of that domain the client model's command line + CRLF is split by the server model's parseCmd into the verb and an argument on which handleMail / handleRcpt is exactly the Session.Mail / Session.Rcpt call with the client's address and options (strings.TrimSpace, ToUpper, cutPrefixFold and the path parser included). All five codec functions compared with the Lean model on every Unicode scalar value (thorough) and short strings over the significant alphabet; round-trip laws judged on the implementation's own encode/decode pairs; e2e probe: the real client talks to the real server and the options the backend observed are compared field by field with those given (every string option from the alphabet, option subsets, RRVS instants in several zones).",
           'DESIGN.md 0.3 + 7 C14', 'Lean 4 proof (xtext, parameter trip client model -> server model) + executable codec model + law monitors + differential correspondence (xtext, rt, e2e probes)',
           'utf-8-addr-xtext / unitext round trips, RRVS times and non-ASCII values are decided by exhaustive enumeration of scalar values against the model and the law monitors, not by a theorem'),
  "C15": C("Proved for EVERY argument value (hostile ones included): C15_mail_one_line and C15_rcpt_one_line (the line built from sender/recipient, "
@@ -129,7 +129,7 @@ CLAIMED = {
           "C17_unset_class (unset => X.0.0 of the reply's class), C17_generic_envelope (451 4.0.0 text), C17_generic_data (554 5.0.0 Error: "
           "transaction failed: text). Implementation: server rendering composed with client parsing on codes x enhanced-code modes x message "
           "shapes x call sites (rt probe), both halves separately (reply, tosmtperr probes), and the real client against the real server with a "
-          "scripted refusing backend (e2e probe), judged by the normalisation law and compared with the model.",
+          "scripted refusing backend (e2e probe), judged by the normalisation law and compared with the model; conv probe: the verdict on a chunked message after an earlier chunked transfer of the connection was abandoned, judged against the delivery record.",
           "DESIGN.md 0.3 + 7 C17", "Lean 4 proof (render o parse) + law monitor + differential correspondence (rt, reply, tosmtperr, e2e probes)",
           "replies without any enhanced code on the wire (NoEnhancedCode) are outside the theorem (ambiguous on the wire) and decided by the law judge; the split of the octet stream into lines (textproto.ReadLine) is modelled, not proved"),
  "C18": C("Proved on the client model: C18_mail_starts_clean / C18_rcpt_appends / C18_reset_clears (the client's recipient list is exactly "
@@ -141,14 +141,14 @@ CLAIMED = {
           "compared with the Lean client model.",
           "DESIGN.md 0.3 + 7 C18", "Lean 4 proof (client recipient bookkeeping and reply loop) + monitor + differential correspondence (cconv probe)",
           "that each read consumes exactly one reply of the peer is decided by the own-reply rule of the monitor and the correspondence"),
- "C19": C('Proved on the wire model: C19_short_lines_ok, C19_long_line_trips (the limiter latches once a line exceeds the limit), C19_long_line_refused (no prefix of an over-long line is executed), C19_tripped_ends_commands (once latched, the command loop reads no further command), C19_error_threshold (the fourth protocol error closes the connection, on the server model). Implementation: line lengths around the limit at every split, endless lines, all short byte strings, every short string over quote/backslash/<>@ as MAIL/RCPT/AUTH=/ORCPT= argument, random binary, error-threshold mixes; a disconnect/QUIT/RSET right after a BDAT command with the command loop not waiting for the delivery goroutine (sched probe, `latestart`): no recovered panic, long lines never reach the backend, short lines never refused, three errors end the connection.',
+ "C19": C('Proved on the wire model: C19_short_lines_ok, C19_long_line_trips (the limiter latches once a line exceeds the limit), C19_long_line_refused (no prefix of an over-long line is executed), C19_tripped_ends_commands (once latched, the command loop reads no further command), C19_error_threshold (the fourth protocol error closes the connection, on the server model), C19_resume_short_ok / C19_resume_counts_pending (the limit coming back after a BDAT chunk - lineLimitReader.resume, repaired in ebe7440: what was counted before is forgotten, so lines within the maximum are never refused, and the beginning of a command line read together with the end of the chunk is counted, so an over-long line trips). Implementation: line lengths around the limit at every split, endless lines, all short byte strings, every short string over quote/backslash/<>@ as MAIL/RCPT/AUTH=/ORCPT= argument, random binary, error-threshold mixes; a disconnect/QUIT/RSET right after a BDAT command with the command loop not waiting for the delivery goroutine (sched probe, `latestart`): no recovered panic, long lines never reach the backend, short lines never refused, three errors end the connection.',
           'DESIGN.md 0.3 + 7 C19', 'Lean 4 proof (line limiter) + monitors + differential correspondence (conv probe)',
           'which inputs count as protocol errors is decided by monitor + correspondence; the bound on buffered input is a property of the modelled bufio, not observed'),
  "C20": C("PARTIAL. Proved: C20_second_close, C20_temp_errors (Serve survives any run of temporary errors, delays <= 1 s) on the lifecycle model; "
           "own_verdict_all_schedules and never_blocked_step on the chunked-delivery interleaving model for every schedule; pinned-tree "
           "counterexamples kept as regression witnesses; the start of a delivery against Conn.Close (model LateStart, every schedule): C20_late_start_no_panic, "
           "C20_late_start_never_calls (repaired code), C20_late_start_pinned_panics (the tree before c1a4e24), C20_late_start_window_remains (what no small patch closes). accept probe over outcome sequences, sched probe over forced delivery/Close/Shutdown orders "
-          "with goroutine-leak counting, connections stuck in an implicit-TLS handshake, and the whole harness replayed under Go's race detector (both tiers).",
+          "with goroutine-leak counting, connections stuck in an implicit-TLS handshake, and the whole harness replayed under Go's race detector (both tiers), including endings (Server.Close, Shutdown, the application's Conn.Close) fired without waiting for the command loop, so that nothing orders them against the running handler (three races found this way and repaired: f1c15af, 67ade1e).",
           "DESIGN.md 7 C20", "Lean 4 proof of interleaving/lifecycle models + schedule-forcing differential probes (accept, sched)",
           "the Go memory model, scheduler fairness and kernel-blocked goroutines are not expressible in the model"),
 }
